@@ -1,6 +1,7 @@
 package checks
 
 import (
+	"bytes"
 	"encoding/json"
 	"fmt"
 	"os"
@@ -118,8 +119,85 @@ func respell(v any, sp spelling, top bool) any {
 	return v
 }
 
+// renderJSONLayout writes a JSON document in another layout of the SAME tokens: "wide" puts blanks on both sides of
+// every colon and before commas (the default of some pretty printers), "tabs" indents with tabs and ends lines with
+// CR LF, "compact" has no white space at all, "escaped" writes the first character of every key as a \u escape.
+func renderJSONLayout(v any, style string) []byte {
+	var b bytes.Buffer
+	nl, ind, colon, comma := "\n", "  ", ": ", ","
+	switch style {
+	case "wide":
+		colon, comma = " : ", " ,"
+	case "tabs":
+		nl, ind = "\r\n", "\t"
+	case "compact":
+		nl, ind, colon = "", "", ":"
+	}
+	key := func(k string) string {
+		q := string(jsonx.Marshal(k))
+		if style == "escaped" && len(k) > 0 && k[0] < 0x80 && k[0] != '"' && k[0] != '\\' && k[0] >= 0x20 {
+			return fmt.Sprintf("\"\\u%04x%s", k[0], q[2:])
+		}
+		return q
+	}
+	var w func(x any, depth int)
+	pad := func(depth int) {
+		if ind != "" {
+			b.WriteString(nl + strings.Repeat(ind, depth))
+		}
+	}
+	w = func(x any, depth int) {
+		switch t := x.(type) {
+		case jsonx.Obj:
+			if len(t) == 0 {
+				b.WriteString("{}")
+				return
+			}
+			b.WriteString("{")
+			for i, kv := range t {
+				if i > 0 {
+					b.WriteString(comma)
+				}
+				pad(depth + 1)
+				b.WriteString(key(kv.K) + colon)
+				w(kv.V, depth+1)
+			}
+			pad(depth)
+			b.WriteString("}")
+		case []any:
+			if len(t) == 0 {
+				b.WriteString("[]")
+				return
+			}
+			b.WriteString("[")
+			for i, e := range t {
+				if i > 0 {
+					b.WriteString(comma)
+				}
+				pad(depth + 1)
+				w(e, depth+1)
+			}
+			pad(depth)
+			b.WriteString("]")
+		default:
+			b.Write(jsonx.Marshal(x))
+		}
+	}
+	w(v, 0)
+	b.WriteString(nl)
+	return b.Bytes()
+}
+
 func renderSpelling(v any, sp spelling) []byte {
 	switch sp.format {
+	case "jsonwide":
+		return renderJSONLayout(v, "wide")
+	case "jsontabs":
+		return renderJSONLayout(v, "tabs")
+	case "jsoncompact":
+		return renderJSONLayout(v, "compact")
+	case "jsonescaped":
+		return renderJSONLayout(v, "escaped")
 	case "yamlblock":
 		return sg.ToYAML(v, sg.YAMLBlock)
 	case "yamlflow":
@@ -142,7 +220,7 @@ func c13(ctx *Ctx) (*Outcome, error) {
 		libPath string
 	}
 	var jobs []*job
-	formats := []string{"json", "yamlblock", "yamlflow", "yamlbare"}
+	formats := []string{"json", "yamlblock", "jsonwide", "yamlflow", "jsontabs", "yamlbare", "jsoncompact", "jsonescaped"}
 	for i := 0; i < n; i++ {
 		r := sg.NewRng(ctx.Seed, fmt.Sprintf("C13-case-%d", i))
 		o := sg.Opts{MaxDepth: 3, Descs: true, PDefault: 0.3, PNullable: 0.2, PAddProps: 0.3, W: map[string]float64{"untyped": 2.5, "ref": 3, "object": 3, "map": 1.2}}
@@ -264,7 +342,7 @@ func c13(ctx *Ctx) (*Outcome, error) {
 		var r res
 		for _, sp := range j.sps {
 			ext := ".json"
-			if sp.format != "json" {
+			if !strings.HasPrefix(sp.format, "json") {
 				ext = ".yaml"
 			}
 			data := renderSpelling(respell(base, sp, true), sp)
